@@ -43,7 +43,7 @@ DIRECTED = [("case-insensitive-names", _read("case-insensitive-names.tsh"), "1 2
             ("copy-count-and-length", _read("copy-count-and-length.tsh"), "5\n5\n", False)]
 
 
-SEMB = dict(cases=0, in_scalar_fragment=0, in_theorem_fragment=0, in_conditional_theorem_fragment=0, src32_defined=0, cmd_defined=0, both=0)
+SEMB = dict(cases=0, in_scalar_fragment=0, in_theorem_fragment=0, in_conditional_theorem_fragment=0, in_scalar_theorem_fragment=0, tree_defined=0, src32_defined=0, cmd_defined=0, both=0)
 
 
 def straight_programs(rng, n):
@@ -160,18 +160,29 @@ def run(res, b, tier, seed):
         for (c, r), a in zip(semb, answers):
             parts = a.split(" ")
             SEMB["cases"] += 1
-            if parts[0] != "SEMB" or len(parts) != 4:
-                semdis.append((c, "SEMB: " + a[:200], "SEMB <src32> <cmd> <S|C|F|N>"))
+            if parts[0] != "SEMB" or len(parts) != 5:
+                semdis.append((c, "SEMB: " + a[:200], "SEMB <src32> <cmd> <S|C|L|F|N> <tree>"))
                 continue
-            src32, cmd, flag = parts[1:]
+            src32, cmd, flag, tree = parts[1:]
             if flag == "N":
                 continue
             SEMB["in_scalar_fragment"] += 1
             SEMB["in_theorem_fragment"] += flag == "S"
             SEMB["in_conditional_theorem_fragment"] += flag in ("S", "C")
+            SEMB["in_scalar_theorem_fragment"] += flag in ("S", "C", "L")
             want = "%d:%s" % (c.meta["expected_status"], c.meta["expected_out"].encode().hex())
             sim = "%d:%s" % (r[2], r[1].encode().hex()) if r[0] == "ok" else None
             agree = sim == want          # the real script does, under the cmd model, what the reference says
+            if tree != "U":
+                SEMB["tree_defined"] += 1
+                if cmd != "U" and tree != cmd:
+                    semdis.append((c, "SEMB-TREE: the block tree Sem/CmdTree (rebuilt from the lines, executed by execBs) says " + tree,
+                                   "the line-level machine Sem/Cmd.runPC says " + cmd))
+                if sim is not None and tree != sim:
+                    semdis.append((c, "SEMB-TREE: the block tree Sem/CmdTree says " + tree, "lib/cmdsim.py says " + sim))
+            if flag in ("S", "C", "L") and src32 != "U" and tree != src32:
+                semdis.append((c, "SEMB-THM: a program of the fragment of batch_preserves_scalar_semantics: Sem/Src32 says " + src32,
+                               "the block tree says " + tree))
             if src32 != "U":
                 SEMB["src32_defined"] += 1
                 if agree and src32 != want:
@@ -184,7 +195,7 @@ def run(res, b, tier, seed):
                 SEMB["both"] += 1
                 if src32 != cmd:
                     semdis.append((c, "SEMB-THM: Sem/Src32 says " + src32, "Sem/Cmd says " + cmd))
-            if flag in ("S", "C") and src32 != "U" and cmd == "U":
+            if flag in ("S", "C", "L") and src32 != "U" and cmd == "U":
                 semdis.append((c, "SEMB-THM: a program of the theorem's fragment runs in Sem/Src32 (" + src32 + ") but not in Sem/Cmd", "U"))
         ncases += len(cases)
         distinct |= {hash(c.meta["src"]) for c in cases}
